@@ -911,6 +911,25 @@ func runC15(ctx *Ctx) error {
 		}
 	}
 	ctx.Res.Extra["exhaustive_part_cases"] = ctx.Res.Evaluations
+	// many references under the paths, few between components, and an orphan that makes a second sweep necessary: 3, 5, 6
+	// and 7 operations' references (the sizes at which a list of them has spare capacity), a component reference whose text
+	// sorts before theirs, one whose text sorts after
+	for _, nr := range []int{3, 5, 6, 7} {
+		g := &graph{}
+		for i := 0; i < nr; i++ {
+			g.Nodes = append(g.Nodes, gnode{"schemas", name(i)})
+			g.Edges = append(g.Edges, gedge{-1, i, "op.param.schema"})
+		}
+		first := len(g.Nodes)
+		g.Nodes = append(g.Nodes, gnode{"schemas", "A"}, gnode{"schemas", "Zz"}, gnode{"schemas", "Orphan"}, gnode{"schemas", "OrphanChild"})
+		g.Edges = append(g.Edges, gedge{1, first, "prop"}, gedge{0, first + 1, "items"}, gedge{first + 2, first + 3, "prop"})
+		if err := c15Case(ctx, g, fmt.Sprintf("fan.%d", nr)); err != nil {
+			return err
+		}
+		if err := c15Generate(ctx, g, fmt.Sprintf("fan.%d", nr)); err != nil {
+			return err
+		}
+	}
 	// random graphs
 	n := ctx.N(400, 6000)
 	for i := 0; i < n; i++ {
